@@ -21,7 +21,7 @@ programs, positions of failing commands, placements of `ignore_error`, interleav
   own command, of a directly called task, of a direct dependency gives the directly called
   task the result `TaskRunError{exit n}`, i.e. exit code 201, or `n` with `--exit-code`;
   `C03_status_chain`: the same through any number of intermediate levels (as a statement
-  about the functions `afterCmd` / `stop ∘ depErr` each level applies).
+  about the functions `afterCmd` / `stopDeps` each level applies).
   `C03_status_full` (every reachable configuration, every top-level activation — executor of
   the task or dedup waiter of an execution somebody else started): the result is never a bare
   exit status (which `main` would turn into exit code 1), never a doubly wrapped
